@@ -253,11 +253,18 @@ def check_case(rec, senv, template, kind, h, w, th, tw, vals, form='op'):
     if (len(formula) + h + w + th + tw) % 4 == 0:
         coord = f'{COLS[0]}1'
         newval = 77 if cells.get(coord) != 77 else 78
+        cells2 = dict(cells)
+        cells2[coord] = newval
         try:
-            cells2 = dict(cells)
-            cells2[coord] = newval
             want2 = normalise(compile_spec(dict(spec, sheets={S: cells2}))
                               .evaluate(f'{S}!{target}'), th, tw)
+        except Exception:       # noqa
+            # the scalar application raises for the new operand in a plain
+            # model as well (e.g. BITAND(77, 0.5)): outside the domain, as
+            # for the first evaluation above
+            rec.label('excluded:scalar-raises-after-set_value')
+            return
+        try:
             it = compile_spec(spec, cycles=True)
             it.evaluate(f'{S}!{target}')
             it.set_value(f'{S}!{coord}', newval)
